@@ -444,13 +444,18 @@ pub struct Deviations {
     /// Overflow of <factor><internal unit> clamps to -max_dimen when the unit is negative
     /// (TeX: +max_dimen, then the sign string).
     pub internal_unit_clamp_sign: bool,
+    /// `<16383>.<fraction rounding up to 1>fil[l[l]]` gives 2^30 sp without an error (TeX: the
+    /// test `abs(cur_val)>=2^30` at attach_sign applies to fil units like to all others).
+    pub fil_carry_unchecked: bool,
 }
 
-pub const DEVIATION_NAMES: [&str; 4] = [
+pub const N_DEVIATIONS: u32 = 5;
+pub const DEVIATION_NAMES: [&str; 5] = [
     "mult_accepts_min",
     "glue_add_keeps_zero_order",
     "internal_dimen_unchecked",
     "internal_unit_clamp_sign",
+    "fil_carry_unchecked",
 ];
 
 impl Deviations {
@@ -460,6 +465,7 @@ impl Deviations {
             glue_add_keeps_zero_order: m & 2 != 0,
             internal_dimen_unchecked: m & 4 != 0,
             internal_unit_clamp_sign: m & 8 != 0,
+            fil_carry_unchecked: m & 16 != 0,
         }
     }
 }
@@ -479,6 +485,8 @@ pub struct Machine {
     cur_tok: Tok,
     radix: u8,
     cur_order: Order,
+    /// scan_units found a fil unit (consulted at attach_sign by deviation fil_carry_unchecked)
+    fil_unit: bool,
     /// Which scanning features were exercised (for evidence counters).
     pub seen: Seen,
 }
@@ -528,6 +536,7 @@ impl Machine {
             cur_tok: Tok::Space,
             radix: 0,
             cur_order: Order::Normal,
+            fil_unit: false,
             seen: Seen::default(),
         }
     }
@@ -823,6 +832,7 @@ impl Machine {
         let mut f: i64 = 0;
         self.arith.arith_error = false;
         self.cur_order = Order::Normal;
+        self.fil_unit = false;
         let mut negative = false;
         let mut cur_val: i64;
         // `direct`: control reached attach_sign from §449 with an internal dimension
@@ -906,7 +916,15 @@ impl Machine {
                 self.scan_optional_space()?;
             }
             // attach_sign, reached from the units
-            if self.arith.arith_error || cur_val.abs() >= 1 << 30 {
+            let mut too_large = self.arith.arith_error || cur_val.abs() >= 1 << 30;
+            if too_large && !self.arith.arith_error && self.fil_unit {
+                // 16383 + a fraction that rounds up to 1: exactly 2^30
+                self.fired |= 16;
+                if self.dev.fil_carry_unchecked {
+                    too_large = false;
+                }
+            }
+            if too_large {
                 self.error(ErrKind::DimensionTooLarge);
                 cur_val = MAX_DIMEN;
                 self.arith.arith_error = false;
@@ -948,6 +966,7 @@ impl Machine {
                     };
                 }
             }
+            self.fil_unit = true;
             let o = self.cur_order.index();
             if !self.seen.fil_orders.contains(&o) {
                 self.seen.fil_orders.push(o);
